@@ -6,7 +6,7 @@ cd "$(dirname "$0")"
 . ./env.sh
 mkdir -p evidence replays .run
 H=/verif/harness
-cat "$H/go.sum.base" /repo/go.sum | sort -u > "$H/go.sum"
+cat "$H/go.sum.base" /repo/go.sum | sort -u > "$H/go.sum"   # only for editors/IDE use; checks use a private modfile
 (cd "$H" && go test -tags verif -count=1 -run '^$' ./... >/dev/null)
 (cd "$H" && go test -tags verif -race -count=1 -run '^$' ./props/ >/dev/null)
 echo "setup ok: $(go version)"
